@@ -50,6 +50,12 @@ LEVEL_TEXT += (
     "a stored true quotient needs a floating buffer; format-specific "
     "flags of a sparse matrix are read after a conversion or with a "
     "default.")
+LEVEL_TEXT += (
+    " Added in the third round (review of the fix commits, DESIGN.md "
+    "9.6): "
+    "the right-hand side built for an omitted b is floating; reductions "
+    "of the matrix operand (max / min) follow a conversion; the "
+    "expansion run follows both outcomes of the real-mode test.")
 LEVEL_NOTE = (
     "Trusted: scipy.sparse indexing A[I][:, D], setdiag, numpy.setdiff1d / "
     "unique / arange / nonzero semantics. Not decided: floating-point "
